@@ -889,7 +889,7 @@ def run(ctx):
         rewiring = gen_idmap_rewiring(ctx, data, list(pool), ctx.scale(6, 40))
         counts = gen_count_faults(ctx, data, ctx.scale(20, 10_000))
         hostile = gen_hostile_text_faults(ctx, data, ctx.scale(12, 400))
-        shrink = gen_shrink_faults(ctx, data, ctx.scale(12, 2000))
+        shrink = gen_shrink_faults(ctx, data, ctx.scale(12, 300))
         ctx.note(f"structured_faults.{short}", _family_histogram(rewiring + counts + hostile + shrink))
         short_limit = {f for f, _ in rewiring}
         structured = [f for f, _ in rewiring + counts + hostile + shrink]
